@@ -106,12 +106,14 @@ def judgeDeq (s : JState) (q : JQ) (buf : Nat) (r : DeqRes) : JState :=
       | .none => s.flag s!"message-lost expected=({m.p},{m.v},{m.size}) got=none"
       | .crash => s.flag "queue-index-out-of-range"
 
-def judgeStep (s : JState) (e : Ev) : JState :=
-  -- a blocked writer must be woken by the dequeue that made room
-  let s := match s.q, e with
-    | some q, .unblocked .. => if q.mustWake then s else s
-    | some q, _ => if q.mustWake then ({ s with q := some { q with mustWake := false } }).flag "blocked-writer-not-woken" else s
-    | none, _ => s
+/-- a blocked writer must be woken by the dequeue that made room: the event after such a dequeue is `unblocked` -/
+def wakeCheck (s : JState) (e : Ev) : JState :=
+  match s.q, e with
+  | some _, .unblocked .. => s
+  | some q, _ => if q.mustWake then ({ s with q := some { q with mustWake := false } }).flag "blocked-writer-not-woken" else s
+  | none, _ => s
+
+def judgeCore (s : JState) (e : Ev) : JState :=
   match e with
   | .post p k d rc =>
     if rc = 0 then { s with outstanding := s.outstanding ++ [(p, (k, d))] }
@@ -165,8 +167,11 @@ def judgeStep (s : JState) (e : Ev) : JState :=
   | .wstop w => match s.getW w with
     | some k => s.setW w { k with stop := true }
     | none => s
-  | .wjoin w t r => match s.getW w with
+  | .wjoin w t r sl => match s.getW w with
     | some k =>
+      -- "within t + one poll interval": at most ceil(t/10) sleeps of 10 ms, none when the thread has finished
+      let s := if sl ≤ (if k.exited then 0 else sleepsFor t.toNat) then s
+               else s.flag s!"timed-join-too-many-sleeps worker={w} timeout={t} sleeps={sl}"
       match r with
       | .overran => s.flag s!"timed-join-unbounded worker={w} timeout={t} thread-finished={k.exited}"
       | .rc1 => if k.exited then s.setW w { k with joined := true } else s.flag s!"join-true-on-live-thread worker={w}"
@@ -198,6 +203,8 @@ def judgeStep (s : JState) (e : Ev) : JState :=
   | .hbrace _ ticked => if ticked then s else s.flag "timer-not-firing"
   | .race what => s.flag s!"data-race {what}"
   | .skip _ => s
+
+def judgeStep (s : JState) (e : Ev) : JState := judgeCore (wakeCheck s e) e
 
 def judgeEv (evs : List Ev) : List String := (evs.foldl judgeStep {}).bad.reverse
 
